@@ -246,27 +246,27 @@ func shrink(t *testing.T, profile, tier string, seed uint64, plan, sched []uint3
 }
 
 type workerSummary struct {
-	Summary   bool            `json:"summary"`
-	Profile   string          `json:"profile"`
-	Tier      string          `json:"tier"`
-	Cases     int             `json:"cases"`
-	Runs      int             `json:"runs"`
-	Steps     int             `json:"steps"`
-	SimMs     int64           `json:"sim_ms"`
-	WallS     float64         `json:"wall_s"`
-	Classes   map[string]int  `json:"classes"`
-	Probes    map[string]int  `json:"probes"`
-	Faults    map[string]int  `json:"faults"`
-	Shapes    []string        `json:"shapes"`
-	Scheds    []string        `json:"scheds"`
-	Nontriv   []string        `json:"nontrivial"`
-	Samples   []interface{}   `json:"samples"`
-	Violating []string        `json:"violating"`
-	Observations []string     `json:"observations"`
-	KnownSeen map[string]int  `json:"known_seen"`
-	Seeds     []uint64        `json:"seeds"`
-	Notes     map[string]int  `json:"notes"`
-	Other     map[string]int  `json:"other_property_findings"`
+	Summary      bool           `json:"summary"`
+	Profile      string         `json:"profile"`
+	Tier         string         `json:"tier"`
+	Cases        int            `json:"cases"`
+	Runs         int            `json:"runs"`
+	Steps        int            `json:"steps"`
+	SimMs        int64          `json:"sim_ms"`
+	WallS        float64        `json:"wall_s"`
+	Classes      map[string]int `json:"classes"`
+	Probes       map[string]int `json:"probes"`
+	Faults       map[string]int `json:"faults"`
+	Shapes       []string       `json:"shapes"`
+	Scheds       []string       `json:"scheds"`
+	Nontriv      []string       `json:"nontrivial"`
+	Samples      []interface{}  `json:"samples"`
+	Violating    []string       `json:"violating"`
+	Observations []string       `json:"observations"`
+	KnownSeen    map[string]int `json:"known_seen"`
+	Seeds        []uint64       `json:"seeds"`
+	Notes        map[string]int `json:"notes"`
+	Other        map[string]int `json:"other_property_findings"`
 }
 
 func WorkerMain(t *testing.T) {
